@@ -166,3 +166,36 @@ def shrink_prog(case):
             q["ops"] = ops[:i] + [(f, op[:-1] + (lst,))] + ops[i + 1:]
             out.append(q)
     return [vlib.pcase(q) for q in out]
+
+
+# ---- cases at the Interface boundary (L1) or below the real transports (L2), for Corr/DrawL.v
+SMALL_L2 = [100, 101, 102, 103, 104, 105, 203, 204]
+
+
+def l2_config(rng, info):
+    """small panel over the real SpiInterface (buffer lengths around the pixel size, not multiples of it) or a parallel bus"""
+    pc, m, lw, lh, cmax = config(rng, info, ifaces=(3, 3, 4, 5), models=SMALL_L2)
+    if pc["iface"] == 3:
+        bpp = 2 if m["color"] == "Rgb565" else 3
+        pc["ifparam"] = rng.choice([bpp, bpp + 1, 2 * bpp - 1, 2 * bpp, 2 * bpp + 1, 7, 64])
+    return pc, m, lw, lh, cmax
+
+
+def wrap_l(case, l2):
+    case.coq = ("L2 (%s)" if l2 else "L1 (%s)") % case.coq
+    if l2 and "L2" not in case.tags:
+        case.tags = ["L2"] + list(case.tags)
+    return case
+
+
+def wrap_impl_l(case, impl):
+    return ("LO2 " if "L2" in case.tags else "LO1 ") + impl
+
+
+def shrink_l(case):
+    out = shrink_prog(case)
+    l2 = "L2" in case.tags
+    for c in out:
+        c.tags = list(case.tags)
+        wrap_l(c, l2)
+    return out
